@@ -563,7 +563,11 @@ class _State(object):
                     qn = self.global_name(f.id)
         elif isinstance(f, ast.Attribute):
             if isinstance(f.value, ast.Name) and f.value.id in self.env:
-                return ("method", f.attr, self.env[f.value.id], args, kwargs)
+                recv = self.env[f.value.id]
+                inl = self._inline_self_method(recv, f.attr, args, kwargs)
+                if inl is not None:
+                    return inl
+                return ("method", f.attr, recv, args, kwargs)
             dn = self.repo.dotted(self.module, f)
             if dn is not None:
                 qn = dn
@@ -581,6 +585,30 @@ class _State(object):
         if qn is None:
             return ("call", "?" + unparse(f), args, kwargs)
         return self.apply(qn, args, kwargs, n)
+
+    def _inline_self_method(self, recv, name, args, kwargs):
+        """self.helper(...) where helper is a method of the class under analysis (Extractor.self_class) that the
+        rules do not name: the helper's body stands for the call, as for module-level helpers"""
+        ex = self.ex
+        cls = getattr(ex, "self_class", None)
+        if cls is None or recv != ("param", "self") or name in getattr(ex, "atomic_methods", ()):
+            return None
+        meth = None
+        for st in cls.body:
+            if isinstance(st, ast.FunctionDef) and st.name == name:
+                meth = st
+        if meth is None or self.depth >= ex.inline_depth:
+            return None
+        label = "self." + name
+        if label in ex._stack or any(isinstance(x, (ast.Yield, ast.YieldFrom)) for x in ast.walk(meth)):
+            return None
+        is_static = any(isinstance(d, ast.Name) and d.id == "staticmethod" for d in meth.decorator_list)
+        ex._stack.append(label)
+        try:
+            rets = ex.function(FuncRef(self.module, meth, label), ([] if is_static else [recv]) + list(args), dict(kwargs), self.depth + 1)
+        finally:
+            ex._stack.pop()
+        return ("inl", label, ex.result_term(rets))
 
     def _is_regex_global(self, qual):
         from .srcmodel import Regex
